@@ -66,6 +66,13 @@ def cases(tier):
             for req in (0.5, 2.5):
                 for re in ('lam', 'turb'):
                     out.append(dict(base, unit=unit, req=req, re=re, wall='none'))
+        # a request just above a sub-millimetre limit (an absolute margin would let it through)
+        for req in (1.05, 1.3):
+            for re in ('vlow', 'lam'):
+                out.append(dict(base, req=req, re=re, wall='none'))
+        # a power-cell boundary a few per cent of a step past a regular plane
+        for re in ('lam', 'trans'):
+            out.append(dict(base, re=re, wall='none', bnd='just-past'))
         for d in ('d2', 'd3'):
             for re in ('lam', 'turb'):
                 out.append(dict(base, design=d, core=7, re=re, wall='none', eqT=True, power='asym'))
@@ -205,6 +212,9 @@ def build(c, power):
         scn['power']['scaling'] = c['pscale']
     if c.get('req_m') is not None:
         scn['setup']['axial_mesh_size'] = float(c['req_m'])     # metres here; converted below with the rest
+    if c.get('cell_at') is not None:
+        for spec in scn['power']['asm'].values():
+            spec['cells'] = [0.0, float(c['cell_at']), spec['cells'][-1]]
     if c.get('core', 1) == 7:
         a0 = scn['assign'][0]
         flow = a0[3]['flowrate']
@@ -374,6 +384,16 @@ def run_case(c):
                 r['info'] = {'site': site_of(e)}
                 return r
         c = dict(c, req_m=float('%.3g' % (c['req'] * lim)))
+    if c.get('bnd') == 'just-past':
+        with S.Built(build(dict(c, bnd=None), 'zero')) as b0:
+            try:
+                lim = float(b0.reactor().req_dz)
+            except SystemExit as e:
+                r['outcome'] = 'rejected-at-setup'
+                r['info'] = {'site': site_of(e)}
+                return r
+        k = max(1, int(0.5 * c['L'] / lim))
+        c = dict(c, cell_at=round(k * lim + 0.03 * lim, 12))
     # temperature-dependent coolant: DASSH selects the step for the inlet..outlet range of the REAL power
     scn = build(c, c.get('power', 'asym') if c.get('coolant') else 'zero')
     with S.Built(scn) as b:
@@ -386,6 +406,11 @@ def run_case(c):
             return r
         T0 = float(rx.inlet_temp)
         dz_sel = float(rx.req_dz)
+        # the march never takes a step longer than the selected one (steps are only ever shortened to land
+        # on a boundary; planes are rounded to 1e-12 m)
+        if float(np.max(rx.dz)) > dz_sel + 2.1e-12:
+            V.append(violation('mesh-step-exceeds-selected', c, 'an axial step of the mesh is longer than the step '
+                               'DASSH selected', float(np.max(rx.dz)), dz_sel, 2.1e-12, site='reactor.py:_check_dz'))
         mins = [float(x) for x in rx.min_dz['dz']]
         codes = [str(x) for x in rx.min_dz['sc']]
         k = int(np.argmin(mins))
